@@ -145,6 +145,15 @@ impl DefaultInputTextPlugin {
         self.ignore_normalize_set.contains(&ch)
     }
 
+    /// Whether lowercasing changes the character.
+    /// This is not the same as `char::is_uppercase`: titlecase letters (e.g. U+01C5)
+    /// are not uppercase, but they have a distinct lowercase form.
+    #[inline]
+    fn needs_lowercasing(ch: char) -> bool {
+        let mut lower = ch.to_lowercase();
+        lower.next() != Some(ch) || lower.next().is_some()
+    }
+
     /// Fast case: lowercasing is not needed and the string is already in NFKC
     /// Use AhoCorasick automaton to find all replacements and replace them
     ///
@@ -198,7 +207,7 @@ impl DefaultInputTextPlugin {
             }
 
             // 2. handle normalization
-            let need_lowercase = ch.is_uppercase();
+            let need_lowercase = Self::needs_lowercasing(ch);
             let need_nkfc = !self.should_ignore(ch)
                 && match is_nfkc_quick(std::iter::once(ch)) {
                     IsNormalized::Yes => false,
@@ -285,7 +294,7 @@ impl InputTextPlugin for DefaultInputTextPlugin {
             _ => true,
         };
 
-        let need_lowercase = chars.iter().any(|c| c.is_uppercase());
+        let need_lowercase = chars.iter().any(|c| Self::needs_lowercasing(*c));
 
         if need_nkfc || need_lowercase {
             self.replace_slow(buffer, edit)
